@@ -50,11 +50,14 @@ PROPS = {
     "C03": mk(["u1"], T_SIGNAL, [R1, R2, R3, A1, A5], "every entry point ensures one atomic reference step per critical section; lock invariant at every guard death"),
     "C05": mk(["u1"], T_SIGNAL, [R1, R2, R3, A1, A5], "MaybeUninit typestate + scope-exit obligations on every lent slot + Option post-conditions"),
     "C08": mk(["u1"], T_SIGNAL, [R1, R2, R3, A1, A2, A5], "len <= capacity is part of the lock invariant; admission post-conditions"),
+    "C09": mk(["u1"], T_SIGNAL, [R1, R2, R3, R4, A1, A5], "all contracts are proved for all four handle types and never mention the flavour of a waiter; conversions are transmutes (shape check)"),
     "C10": mk(["u1"], T_SIGNAL, [R1, R2, R3, A1, A5], "close contract; closed is absorbing on every entry point"),
     "C11": mk(["u1"], T_SIGNAL, [R1, R2, R3, A1, A5], "Drop contracts; drain before SendClosed"),
     "C12": mk(["u1"], [], [R1, A1, A3, A5], "+-1 contracts on every clone/drop/convert; conversions are transmutes (shape check)"),
     "C13": mk(["u1"], T_SIGNAL + T_TIME, [R1, R2, R3, A1, A4, A5], "timed operations: two critical sections, timeout only after a successful cancel under the lock, not before the deadline (clock token)"),
     "C14": mk(["u1"], T_SIGNAL, [R1, R2, A1, A5], "blocking-effect tokens in requires; total correctness of the non-blocking entry points"),
+    "C15": mk(["u1"], T_SIGNAL, [R1, R2, R3, A1, A5], "Drop contracts of both futures: cancel under the lock, else wait for the peer, value disposed exactly once"),
+    "C16": mk(["u1"], T_SIGNAL, [R1, R2, R3, A1, A5], "poll contracts: Pending implies current waker registered, waker replaced only under the lock, re-arm only with a fresh signal, value only on evidence of delivery, sticky stream end"),
     "C18": mk(["u1"], T_SIGNAL + T_TIME, [R1, R2, R3, A1, A2, A3, A4, A5], "each entry point equals a deterministic reference function; panic- and overflow-freedom"),
     "C19": mk(["u1"], T_SIGNAL, [R1, R2, R3, A1, A2, A5], "full functional post-condition of drain_into including both loops"),
 }
